@@ -358,6 +358,33 @@ func init() {
 		if err := json.Unmarshal(raw, &in); err != nil {
 			return nil, err
 		}
+		if in.Mode == "leakcheck" {
+			// last case of a process: every watch of the earlier cases has been stopped (by its schedule or by the clean-up
+			// after its observation); no goroutine may be left anywhere in hijack.go (relay or anything Watch started)
+			var n int
+			var where string
+			for try := 0; try < 40; try++ {
+				time.Sleep(100 * time.Millisecond)
+				buf := make([]byte, 4<<20)
+				buf = buf[:runtime.Stack(buf, true)]
+				n, where = 0, ""
+				for _, g := range strings.Split(string(buf), "\n\n") {
+					if strings.Contains(g, "helper/hijack.go") {
+						n++
+						if where == "" {
+							where = g
+							if len(where) > 700 {
+								where = where[:700]
+							}
+						}
+					}
+				}
+				if n == 0 {
+					break
+				}
+			}
+			return map[string]interface{}{"leakcheck": true, "hijack_goroutines": n, "where": where}, nil
+		}
 		if in.TimeoutMs <= 0 {
 			in.TimeoutMs = 60
 		}
